@@ -42,7 +42,7 @@ func init() {
 		Shrink:     shrinkC09,
 		Workers:    8,
 		Assumptions: []string{
-			"request URLs consist of unreserved characters (no percent-encoding); net/url parsing is trusted",
+			"request URLs consist of unreserved characters plus, in 7% of the random requests, one percent-encoded character (an unreserved one, %2F, %20, a dot or dash); net/url parsing and escaping are trusted; such a request is judged under both readings of 'the request path' (escaped, decoded)",
 			"gorilla/mux regular-expression matching is modelled as greedy leftmost-first template matching; host variables match [^.]+, path variables [^/]+",
 			"no `{name*}` wildcard or `{name:regexp}` templates, at most one variable in a server's scheme part",
 			"where two path keys share a node of the legacy trie (`/a` and `/a/`) the router's answer depends on a Go map iteration order: the model gives the set of answers over the insertion orders and the observed answer has to be one of them",
@@ -192,7 +192,11 @@ func c09Request(c hx.Case) *http.Request {
 		}
 		req = &http.Request{Method: method, URL: u, Host: u.Host, Header: http.Header{}}
 	} else {
-		req = &http.Request{Method: method, URL: &url.URL{Path: path}, Host: host, Header: http.Header{}}
+		u := &url.URL{Path: path}
+		if d, ok := c["dpath"].(string); ok && d != path {
+			u = &url.URL{Path: d, RawPath: path} // "path" is the escaped path as written on the wire
+		}
+		req = &http.Request{Method: method, URL: u, Host: host, Header: http.Header{}}
 		if scheme == "https" {
 			req.TLS = &tls.ConnectionState{}
 		}
@@ -290,7 +294,28 @@ func cmpC09(c hx.Case, impl any, reply map[string]any) hx.Verdict {
 	if !v.IM {
 		v.Detail = fmt.Sprintf("impl %v vs model %v %v", hx.Canon(im), hx.Canon(model), hx.Canon(reply["modelAlts"]))
 	}
-	// implementation vs spec
+	// implementation vs spec; a percent-encoded request is judged under both readings of "the request path" (escaped and
+	// decoded) and has to satisfy the property under one of them
+	imDetail := v.Detail
+	c09Judge(c, im, kind, spec, &v)
+	if !v.IS {
+		if alt, _ := reply["specAlt"].(map[string]any); alt != nil {
+			w := hx.Verdict{IM: v.IM, IS: true}
+			c09Judge(c, im, kind, alt, &w)
+			if w.IS {
+				v.IS = true
+				v.Detail = imDetail
+			}
+		}
+	}
+	if jbool(im, "hasRoute") {
+		v.IS = false
+		v.Detail = "an error was returned together with a route"
+	}
+	return v
+}
+
+func c09Judge(c hx.Case, im map[string]any, kind string, spec map[string]any, v *hx.Verdict) {
 	must := jstr(spec, "must")
 	switch kind {
 	case "route":
@@ -334,11 +359,6 @@ func cmpC09(c hx.Case, impl any, reply map[string]any) hx.Verdict {
 		v.IS = false
 		v.Detail = fmt.Sprintf("unexpected outcome %v; the property requires %v", hx.Canon(im), hx.Canon(spec))
 	}
-	if jbool(im, "hasRoute") {
-		v.IS = false
-		v.Detail = "an error was returned together with a route"
-	}
-	return v
 }
 
 // ---------------------------------------------------------------- generator
@@ -449,8 +469,45 @@ var c09MethodLayouts = [][][]string{
 }
 
 func c09Emit(emit func(hx.Case), router string, paths []any, servers []any, f c09Form, path, method string) {
-	emit(hx.Case{"router": router, "paths": paths, "servers": servers, "method": method, "abs": f.abs,
-		"scheme": f.scheme, "host": f.host, "path": f.prefix + path})
+	c := hx.Case{"router": router, "paths": paths, "servers": servers, "method": method, "abs": f.abs,
+		"scheme": f.scheme, "host": f.host}
+	c09SetPath(c, f.prefix+path)
+	emit(c)
+}
+
+// "path" is the escaped path as written on the wire; "dpath" its decoded form, present only when the two differ
+func c09SetPath(c hx.Case, p string) {
+	c["path"] = p
+	delete(c, "dpath")
+	if strings.Contains(p, "%") {
+		if d, err := url.PathUnescape(p); err == nil && d != p {
+			c["dpath"] = d
+		}
+	}
+}
+
+// percent-encode something inside the path: an unreserved character (decodes to itself), an encoded slash or space
+// inside a segment, a dot or dash
+func c09Encode(r *hx.Rng, p string) string {
+	if len(p) < 2 {
+		return p
+	}
+	i := 1 + r.Intn(len(p)-1)
+	switch r.Intn(4) {
+	case 0:
+		if ch := p[i]; ch != '/' && ch != '%' {
+			return p[:i] + fmt.Sprintf("%%%02X", ch) + p[i+1:]
+		}
+	case 1:
+		return p[:i] + "%2F" + p[i:]
+	case 2:
+		return p[:i] + "%20" + p[i:]
+	case 3:
+		if j := strings.IndexAny(p, ".-"); j >= 0 {
+			return p[:j] + fmt.Sprintf("%%%02X", p[j]) + p[j+1:]
+		}
+	}
+	return p
 }
 
 func genC09(ctx *hx.Ctx, emit func(hx.Case)) {
@@ -831,6 +888,9 @@ func c09Random(r *hx.Rng, emit func(hx.Case)) {
 		if r.Chance(8) { // the literal text of another template
 			p = c09Fill(r, hx.Pick(r, ts))
 		}
+		if r.Chance(7) && !strings.Contains(p, "%") {
+			p = c09Encode(r, p)
+		}
 		var m string
 		switch k := r.Intn(100); {
 		case k < 55:
@@ -924,7 +984,7 @@ func shrinkC09(c hx.Case) []hx.Case {
 			for i := 1; i < len(p); i++ {
 				if p[i] == '/' {
 					y := cloneCase(x)
-					y["path"] = p[i:]
+					c09SetPath(y, p[i:])
 					y["abs"] = true
 					y["scheme"], y["host"] = "http", "localhost"
 					out = append(out, y)
@@ -939,7 +999,7 @@ func shrinkC09(c hx.Case) []hx.Case {
 		for i := 1; i < len(segs); i++ {
 			ns := append(append([]string{}, segs[:i]...), segs[i+1:]...)
 			x := cloneCase(c)
-			x["path"] = strings.Join(ns, "/")
+			c09SetPath(x, strings.Join(ns, "/"))
 			out = append(out, x)
 		}
 	}
